@@ -110,6 +110,7 @@ class Check:
             'maxfail': rng.choice([0, 0, 0, 1, 2, 3]),
             'tmult': rng.choice([None, None, None, 0.5, 2.0, 0.0, -1.0]),
             'nosplit': rng.random() < 0.2,
+            'jvia': rng.choice(['arg', 'arg', 'arg', 'short', 'testthreads', 'numproc', 'both']),
             'verbose': rng.random() < 0.1,
             'errorlogs': rng.random() < 0.15,
         }
@@ -373,7 +374,7 @@ class Check:
         # ---- the simulated run
         argv = C.run_args(bd, run)
         logbase = 'testlog' + (f"-{C.TOP}_{run['setup']}" if run.get('setup') else '')   # meson names the log files after the setup
-        rr = C.sim_run(root, bd, argv, run['sim'], run['scripts'], f'{ri}', logbase=logbase)
+        rr = C.sim_run(root, bd, argv, run['sim'], run['scripts'], f'{ri}', logbase=logbase, extra_env=C.jobs_env(run))
         if not rr['ok']:
             if rr['exc_in_sut']:
                 return R.violation('sut-exception', 'meson test raised: ' + rr['exc'][-2500:], 'sut-exception:' + str(rr['exc_type']))
